@@ -318,13 +318,6 @@ func RunC06(r *core.Rng, run, seed uint64, tier string, cov *Cov) []*Violation {
 			cov.Probe("large-population")
 		}
 		groups := r.Range(1, 5)
-		if r.Chance(0.012) {
-			// hundreds of goroutines (work budgets, batch sizes and deadlines that
-			// are read from the clock every so many goroutines show only there;
-			// the clock is the simulator's and differs between the orders)
-			mpg, groups = 200, r.Range(3, 5)
-			cov.Probe("very-large-population")
-		}
 		doc = gen.GenerateSimilar(r, gen.SimilarCfg{Groups: groups, MaxPerGrp: mpg, Files: files, Shuffle: r.Chance(0.5), DupIDs: r.Chance(0.15)})
 	} else {
 		cfg := gen.DefaultCfg(r)
